@@ -232,7 +232,7 @@ SourceClauses == {"SourceUntouched/TimeIncreasing", "SourceUntouched/TimeStart",
 Reobs(r, role) == {x \in DOMAIN r.reobs : r.reobs[x].role = role}
 DriftClauses == {"Drift/SpecShape", "Drift/ResampleNum"}
 Clauses == {"Produced", "RecFrames",
-            "ClipLength", "ClipFrames", "ClipTimes", "ClipSameAsRecording", "ClipConsistent", "RecTimes",
+            "ClipLength", "ClipFrames", "ClipTimes", "ClipSameAsRecording", "ClipConsistent", "Drift/RecTimes",
             "TimeIncreasing", "TimeStart", "TimeWithinStep",
             "FreqIncreasing", "FreqStart", "FreqWithinStep"} \cup SourceClauses \cup DriftClauses
 
@@ -263,7 +263,7 @@ Holds(cl, o) ==
                               /\ lclip => \E off \in AccOff(o) : LongSamplesAt(c, r.red, off)
       \* the clip's frame i is "the same frame of load_recording" and carries (off+i)/sr, so load_recording's frame k
       \* carries k/sr; judged on the sampled instants of long recordings only (2^-8 sample)
-      [] cl = "RecTimes"   -> (c.kind = "long" /\ ok) =>
+      [] cl = "Drift/RecTimes"   -> (c.kind = "long" /\ ok) =>
                                  LongSamplesAt(c, r.red, 0)
       [] cl = "ClipSameAsRecording" -> isclip => \E off \in AccOff(o) : ClipSameAt(o, off)
       [] cl = "ClipConsistent" -> isclip => \E off \in AccOff(o) : ClipFramesAt(o, off) /\ ClipTimesAt(o, off) /\ ClipSameAt(o, off)
